@@ -3,8 +3,8 @@ import os
 
 from lib import vlib
 
-QUICK = ["framing", "limit", "seq", "sizes", "header"]
-THOROUGH = ["framing", "framing4", "limit", "seq", "sizes", "header"]
+QUICK = ["framing", "limit", "seq", "sizes", "header", "bufsize"]
+THOROUGH = ["framing", "framing4", "limit", "seq", "sizes", "header", "bufsize", "bufsizes"]
 
 
 def run(ctx):
@@ -12,10 +12,12 @@ def run(ctx):
     ctx.rule = ("TLC enumerates every sequence of frames an arbitrary peer can send within each family's alphabet and depth (framing: every "
                 "rule of RFC 6455 section 5 one factor at a time, depth 3; limit: message sizes relative to the read limit incl. 2^63-1 / 2^63 "
                 "/ 2^64-1 lengths, depth 3; seq: opcode x FIN, depth 4; sizes: 7/16/64-bit forms with real payloads; header: the full product "
-                "opcode x FIN x RSV x mask x length class as first frame) for both roles, each with the reference receiver's outcome after every "
+                "opcode x FIN x RSV x mask x length class as first frame; bufsize: the configured read buffer size {default, 1, 2, 13, 14, 15, 64, 124, "
+                "125, 126, 1024} x control frames of every legal payload size around it x data frames around it, depth 2; thorough: depth 3, and a larger alphabet at depth 2) for both roles, each with the reference receiver's outcome after every "
                 "step; every behaviour is rendered to bytes from the specification's layout, fed to a real websocket.Conn, ended after the last "
                 "frame and at offsets inside the last frame (prefixes are behaviours too, so this is every frame of every behaviour), under 2-4 "
-                "API/segmentation/buffer variants; plus random long behaviours of a mostly conformant peer (TLC simulation, depth 30); "
+                "API/segmentation/buffer variants (the read buffer size is swept over the same 11 sizes in every family: no action of the "
+                "specification reads it; BufferBlind is model checked on two receivers in lockstep); plus random long behaviours of a mostly conformant peer (TLC simulation, depth 30); "
                 "distinct = distinct behaviour")
     ctx.exhaustive = (t == "quick")   # thorough adds thousands of random long behaviours (TLC simulation)
     ctx.assumptions += [
@@ -27,6 +29,8 @@ def run(ctx):
         "error texts, the reason of the Close 1002, the status of the Close sent with the limit error, EOF vs UnexpectedEOF at a cut are free",
         "a stream cut inside a frame may be reported as the i/o error or as the failure that frame causes anyway",
         "payload bytes are a position-dependent pattern, not all byte strings; depth and alphabets are bounded as listed",
+        "read buffer sizes: the 11 listed, passed to the constructor the Dialer and the Upgrader use (hook VerifNewConn); the server role is also "
+        "made by the real Upgrader from a hijacked connection whose bufio.Reader has 16/64/255/256/300/4096 bytes; write buffer sizes are not varied here (C13)",
     ]
     ctx.sany("ws", "WsReader")
     ctx.sany("ws", "Gen_WsReader")
@@ -38,9 +42,15 @@ def run(ctx):
     ctx.tlc("ws", "MC_WsReader", "MC_WsReader_perframe.cfg", expect_violation="LimitOk", count_states=False)
     if t == "thorough":
         ctx.tlc("ws", "MC_WsReader", "MC_WsReader_pongempty.cfg", expect_violation="PongOk", count_states=False)
+        ctx.tlc("ws", "MC_WsReader", "MC_WsReader_ctlbuf.cfg", expect_violation="NoSpontaneousFailure", count_states=False)
+    # configuration independence: two receivers in lockstep that differ in the read buffer size only agree on everything
+    # observable; with the deviation control-needs-buffer they do not
+    ctx.tlc("ws", "MC_WsReaderBuf", "MC_WsReaderBuf.cfg" if t == "quick" else "MC_WsReaderBuf.thorough.cfg")
+    ctx.tlc("ws", "MC_WsReaderBuf", "MC_WsReaderBuf_ctlbuf.cfg", expect_violation="BufferBlind", count_states=False)
     cases = os.path.join(ctx.out, "cases.ndjson")
     for f in (QUICK if t == "quick" else THOROUGH):
-        ctx.tlc("ws", "Gen_WsReader", "Gen_WsReader_%s.%s.cfg" % (f, t), cases_to=cases, timeout=1500, count_states=False)
+        ctx.tlc("ws", "Gen_WsReader", "Gen_WsReader_%s.%s.cfg" % (f, t), cases_to=cases, timeout=1500, count_states=False,
+                jopts=(["-Xmx4g"] if f.startswith("bufsize") else None))
     # random long behaviours of a mostly conformant peer (one behaviour per trace, emitted when the stream ends)
     ctx.tlc("ws", "Gen_WsReader", "Gen_WsReader_sim.cfg", cases_to=cases, simulate=(120 if t == "quick" else 4000), depth=40,
             workers=1, timeout=900)
